@@ -28,6 +28,12 @@ from scipy.special import erf
 from vf import lattice
 from vf.cli import WorkerResult
 
+
+def _gt(a, b):
+    """a > b that is also True when a is NaN (a silent NaN must never pass a tolerance test)."""
+    return ~(np.asarray(a) <= np.asarray(b))
+
+
 LEVEL = "exploration"
 RULE = (
     "product / deviation-bounded product of density basis x angular degree x solver options; "
@@ -122,7 +128,7 @@ def _bvp_case(arg):
     err = np.abs(got - ref)
     res.count(len(q))
     res.nontrivial(n=len(q))
-    if np.any(~np.isfinite(got)) or err.max() > TOL_BVP:
+    if np.any(~np.isfinite(got)) or _gt(err.max(), TOL_BVP):
         i = int(np.nanargmax(err)) if np.any(np.isfinite(err)) else 0
         res.violation(f"bvp:potential-differs-from-analytic:{'centred' if disp == 'centred' else 'displaced'}",
                       f"{case}: V at {np.round(q[i] - CENTRE, 3).tolist()} (relative to the centre) = {got[i]!r}, analytic {ref[i]!r} "
@@ -191,7 +197,7 @@ def _ivp_case(arg):
     err = np.abs(got - ref)
     res.count(len(q))
     res.nontrivial(n=len(q))
-    if np.any(~np.isfinite(got)) or err.max() > TOL_IVP:
+    if np.any(~np.isfinite(got)) or _gt(err.max(), TOL_IVP):
         res.violation("ivp:potential-differs-from-analytic", f"{case}: max error {np.nanmax(err):.2e} > {TOL_IVP}", case)
     else:
         res.maximum("ivp_err", float(err.max()))
@@ -223,7 +229,7 @@ def _laplacian_case(arg):
     res.nontrivial(n=len(q))
     scale = (alpha / np.pi) ** 1.5 * 6 * alpha
     err = np.abs(got - ref)
-    if err.max() > 2e-2 * scale:
+    if _gt(err.max(), 2e-2 * scale):
         res.violation("laplacian:differs-from-analytic", f"{case}: max error {err.max():.2e} (scale {scale:.2e})", case)
     else:
         res.maximum("laplacian_rel_err", float(err.max() / scale))
@@ -268,7 +274,7 @@ def _robust_case(arg):
     res.nontrivial(n=len(q))
     err = np.abs(got - ref)
     tol = 1e-9 * (1 + np.abs(ref)) if kind == "core" else TOL_BVP * (1 + 0 * ref)
-    if np.any(~np.isfinite(got)) or np.any(err > tol):
+    if np.any(~np.isfinite(got)) or np.any(_gt(err, tol)):
         res.violation(f"robust:{kind}:differs-from-analytic", f"{case}: max error {np.nanmax(err):.2e} "
                       f"({'exact cancellation expected' if kind == 'core' else 'tolerance 1e-3'})", case)
     else:
@@ -307,7 +313,7 @@ def _mol_case(arg):
     ref = v_gauss(q, coords[0], 1.0) + 0.5 * v_gauss(q, coords[1], 2.0)
     res.nontrivial(n=len(q))
     err = np.abs(got - ref)
-    if np.any(~np.isfinite(got)) or err.max() > 5 * TOL_BVP:
+    if np.any(~np.isfinite(got)) or _gt(err.max(), 5 * TOL_BVP):
         res.violation("molecular:potential-differs-from-analytic", f"{case}: max error {np.nanmax(err):.2e}", case)
     else:
         res.maximum(f"molecular_err:{dist}", float(err.max()))
